@@ -168,6 +168,21 @@ func cmdLoopTrace(args []string) error {
 				}
 			}
 		}
+		if c.FailPath == "" && r.Intn(6) == 0 {
+			// a listing error: ReadDir of one selected directory fails (with few producers the walk recurses inline)
+			var dirs []string
+			for _, s := range loopx.Selected(c) {
+				if s[:4] == "dir:" {
+					dirs = append(dirs, s[4:])
+				}
+			}
+			if len(dirs) > 0 {
+				c.FailList = dirs[r.Intn(len(dirs))]
+				if r.Intn(2) == 0 {
+					c.Producents = 1
+				}
+			}
+		}
 		if err := loopx.RunFree(c, r, true, bw); err != nil {
 			return err
 		}
